@@ -51,6 +51,17 @@ def cases(tier, seed):
             cc["alg"] = dict(alg, budget=2 if tier == "thorough" else 1)
             if world.feasible(cc):
                 out.append((sc + "/adversary", cc))
+    # elastic user algorithms: no illegal proposal, but one extra call of the
+    # documented Cluster.provision_batch_resources for the workflow
+    for sc, c in common.thin(adv, 2):
+        for alg in ({"kind": "advbatch", "p": 2, "min": 1},
+                    {"kind": "advbatch", "p": 1, "min": 1},
+                    {"kind": "advqueue"}):
+            cc = dict(c)
+            cc["alg"] = dict(alg, budget=0, api=True)
+            cc["budget_override"] = {"adv": 0, "api": 1, "tie": 0}
+            if world.feasible(cc):
+                out.append((sc + "/elastic", cc))
     if tier == "thorough":
         out = [(sc, dict(c, budget_override=dict(
             common.thorough_override(c, i), **c.get("budget_override", {}))))
